@@ -275,6 +275,7 @@ int main(int argc, char** argv)
       reals = { "deny_access(refused)/char" };
 #else
       reals = { "array/int", "struct", "deny_access/char" };
+      reals.push_back("array2d/int"); // the same cells as int[1][3] / int[2][2]
 #endif
     }
     for (auto& real : reals) {
@@ -283,7 +284,7 @@ int main(int argc, char** argv)
       }
       g_performed.clear();
       g_checked = -1;
-      g_elsize = real == "range/short" ? 2 : (real == "range/long" || real == "array/int" || real == "struct") ? 4 : 1;
+      g_elsize = real == "range/short" ? 2 : (real == "range/long" || real == "array/int" || real == "array2d/int" || real == "struct") ? 4 : 1;
       std::memset(MEM + SRC - 64, 0x7F, 64 + 64 * g_elsize);
       for (int k = 0; k < n; k++) {
         unsigned char* p = MEM + SRC + k * g_elsize;
@@ -337,6 +338,20 @@ int main(int argc, char** argv)
             auto p = sb->UNSAFE_accept_pointer(reinterpret_cast<int(*)[4]>(BASE + SRC));
             (*p).copy_and_verify([&](std::array<int, 4> a) {
               observe(e, a.data(), 4, a.data());
+              return 0;
+            });
+          }
+        } else if (real == "array2d/int") {
+          if (n == 3) {
+            auto p = sb->UNSAFE_accept_pointer(reinterpret_cast<int(*)[1][3]>(BASE + SRC));
+            (*p).copy_and_verify([&](auto a) {
+              observe(e, &a[0][0], 3, &a[0][0]);
+              return 0;
+            });
+          } else {
+            auto p = sb->UNSAFE_accept_pointer(reinterpret_cast<int(*)[2][2]>(BASE + SRC));
+            (*p).copy_and_verify([&](auto a) {
+              observe(e, &a[0][0], 4, &a[0][0]);
               return 0;
             });
           }
